@@ -1,11 +1,12 @@
 (* C10: extraction of the .pol file model (render / denote / parse / decimal conversion / 2.x reader /
    floating-point predicate). *)
 Require Import ExtrOcamlBasic ExtrOcamlNativeString.
-Require Import MPSV.PolFile.Chars MPSV.PolFile.DecRatModel MPSV.PolFile.PolModel MPSV.PolFile.V2Model MPSV.PolFile.StoreModel.
+Require Import MPSV.PolFile.Chars MPSV.PolFile.DecRatModel MPSV.PolFile.PolModel MPSV.PolFile.V2Model MPSV.PolFile.StoreModel MPSV.PolFile.SetterModel.
 Extraction "../ocaml/polfile.ml"
   render denote parse parse_string
   equiv_rational_string api_coeff_raw api_coeff_value decimal_value mpq_str_value
   digits_val N_digits trunc_bits
   read_v2 parse_outcome parse_string_outcome outcome_forget v2_type_accepted
   build_ers ers_value utils_assemble
-  within_precb mpf_store declared_bits raw_Q poly_parts.
+  within_precb mpf_store declared_bits raw_Q poly_parts
+  run m_new get_q.
